@@ -632,10 +632,13 @@ impl TransportManager {
             .next()
             .ok_or_else(|| Error::TransportNotSupported(address_record.address().clone()))?
         {
-            Protocol::Tcp(_) => match protocol_stack.next() {
+            Protocol::Tcp(_) => match (protocol_stack.next(), protocol_stack.next()) {
                 #[cfg(feature = "websocket")]
-                Some(Protocol::Ws(_)) | Some(Protocol::Wss(_)) => SupportedTransport::WebSocket,
-                Some(Protocol::P2p(_)) => SupportedTransport::Tcp,
+                (Some(Protocol::Ws(_)), _) | (Some(Protocol::Wss(_)), _) =>
+                    SupportedTransport::WebSocket,
+                // The peer ID must be the last component: the transport dials the first peer ID
+                // of the address while the dial is tracked under the last one.
+                (Some(Protocol::P2p(_)), None) => SupportedTransport::Tcp,
                 _ => {
                     return Err(Error::TransportNotSupported(
                         address_record.address().clone(),
